@@ -759,7 +759,8 @@ pub fn run_c11(ctx: &Ctx, out: &mut Out) {
             _ => rng.below(1_000_000_000) as u32,
         };
         api_midpoint(out, secs, nanos, &mut key);
-        if i % 1024 == 0 && !ctx.time_left() {
+        // (at most half of the budget: the running-server parts below need the rest)
+        if i % 1024 == 0 && ctx.start.elapsed() > ctx.budget / 2 {
             break;
         }
     }
@@ -774,7 +775,8 @@ pub fn run_c11(ctx: &Ctx, out: &mut Out) {
     }
     for k in 0..ctx.share(480, 32_000) {
         brackets(out, &mut rng, k);
-        if !ctx.time_left() {
+        // (a minimum regardless of the clock, so that the floors are met on a slow machine)
+        if k >= 40 && !ctx.time_left() {
             break;
         }
     }
